@@ -123,24 +123,27 @@ Definition call_eqb (a b : Z * nat * list text) : bool :=
 
 (* is the observed trace the script's own trace with variant segments inserted - at any point, also inside another
    segment (a variant whose body calls a function with a new signature makes that function's variant on the spot)? *)
-Fixpoint explain (fuel : nat) (segs : list (list (Z * nat * list text)))
+(* pre = true: the observed trace may stop early (a script the statement layer rejects half-way) *)
+Fixpoint explain_p (pre : bool) (fuel : nat) (segs : list (list (Z * nat * list text)))
          (own real : list (Z * nat * list text)) : bool :=
   match fuel with
   | O => false
   | S f =>
     match real with
-    | [] => is_nil own
+    | [] => pre || is_nil own
     | r :: real' =>
       (match own with
-       | m :: own' => call_eqb m r && explain f segs own' real'
+       | m :: own' => call_eqb m r && explain_p pre f segs own' real'
        | [] => false
        end)
       || existsb (fun seg => match seg with
                              | [] => false
-                             | s :: seg' => call_eqb s r && explain f segs (seg' ++ own) real'
+                             | s :: seg' => call_eqb s r && explain_p pre f segs (seg' ++ own) real'
                              end) segs
     end
   end.
+
+Definition explain := explain_p false.
 
 Definition variant_segments (ls : list text) : list (list (Z * nat * list text)) :=
   map (variant_calls (S (length ls))) (def_blocks (flow_prefix (S (length ls)) false ls)).
